@@ -1,6 +1,7 @@
 import Revm.Proofs.Eof
 import Revm.Proofs.EofValidate
 import Revm.Proofs.EofTracker
+import Revm.Proofs.EofJumps
 import Revm.Gen.Tables
 /-! C26 — EOF decoding round-trips and validation protects execution.
 
@@ -20,7 +21,8 @@ header-shaped bytes, structurally generated containers, mutated containers and t
 vectors), and every container the *real* validator accepts is executed by the *real* interpreter
 under `catch_unwind` (a panic there is reported as a violation of the last sentence).
 
-Statements only; proofs are in `Revm.Proofs.Eof` and `Revm.Proofs.EofValidate`. -/
+Statements only; proofs are in `Revm.Proofs.Eof`, `Revm.Proofs.EofValidate`, `Revm.Proofs.EofJumps`
+and `Revm.Proofs.EofTracker`. -/
 namespace Revm.Props.C26
 open Revm.Model.Eof Revm.Model.EofValidate
 
@@ -151,6 +153,38 @@ theorem section_validated_in_range (code : Array Nat) (dataSize idx nContainers 
     SectionOk code types.size nContainers :=
   Proofs.EofValidate.validateEofCode_ok h
 
+/-- **One code section: no jump into immediate bytes.** If `validate_eof_code` accepts a section
+then the target of every relative jump of its linear decoding — RJUMP, RJUMPI and **every entry of
+every RJUMPV table** — is the first byte of an instruction of that decoding (`IsInstrStart`), never
+an immediate byte (PUSHn data, a relative offset, an RJUMPV count or table byte, a section /
+container index, a DUPN / SWAPN / EXCHANGE / DATALOADN operand). Both orders are covered by the
+loop invariant (`Proofs.EofValidate.Inv`): the immediate is marked *before* the jump is processed
+(`target.is_immediate` => `BackwardJumpToImmediateBytes`; also a jump into its own immediates), and
+the jump is processed *before* the immediate is marked (forward jump into the immediates or the
+RJUMPV table of a later instruction: `mark_as_immediate` finds `is_jumpdest` =>
+`JumpToImmediateBytes`). -/
+theorem section_jumps_on_starts (code : Array Nat) (dataSize idx nContainers : Nat)
+    (types : Array TypesSection) (tr tr' : Tracker)
+    (h : validateEofCode code dataSize idx nContainers types tr = .ok tr') :
+    JumpsOnStarts code :=
+  Proofs.EofValidate.validateEofCode_jumps h
+
+/-- non-vacuity and the two neighbours: `PUSH0 PUSH0 RJUMPI+3 RJUMP+k NOP RJUMPV[0:+0] STOP` with the
+RJUMP landing on the RJUMPV opcode (k = 1) or on the STOP after its table (k = 5) is accepted —
+request `eof validate rs ef0001010004020001000e04000000008000025f5fe10003e000015be200000000` -/
+example : (match validateRawEofInner [239, 0, 1, 1, 0, 4, 2, 0, 1, 0, 14, 4, 0, 0, 0, 0, 128, 0, 2, 95, 95, 225, 0, 3, 224, 0, 1, 91, 226, 0, 0, 0, 0] (some .ReturnOrStop),
+      validateRawEofInner [239, 0, 1, 1, 0, 4, 2, 0, 1, 0, 14, 4, 0, 0, 0, 0, 128, 0, 2, 95, 95, 225, 0, 3, 224, 0, 5, 91, 226, 0, 0, 0, 0] (some .ReturnOrStop) with
+    | .ok _, .ok _ => true
+    | _, _ => false) = true := by decide +kernel
+
+/-- the model refuses the same container when the earlier RJUMP lands on the count byte (k = 2) or
+on a byte of the later RJUMPV's table (k = 3, 4) with `JumpToImmediateBytes` — the check made by
+`mark_as_immediate` while the table is marked (request
+`eof validate rs ef0001010004020001000e04000000008000025f5fe10003e000035be200000000`) -/
+example : ([2, 3, 4].map fun k => match validateRawEofInner [239, 0, 1, 1, 0, 4, 2, 0, 1, 0, 14, 4, 0, 0, 0, 0, 128, 0, 2, 95, 95, 225, 0, 3, 224, 0, k, 91, 226, 0, 0, 0, 0] (some .ReturnOrStop) with
+    | .err (.Validation .JumpToImmediateBytes) => true
+    | _ => false) = [true, true, true] := by decide +kernel
+
 /-- **One container.** If `validate_eof_codes` accepts, *every* code section went through
 `validate_eof_code` (the access tracker: what is marked accessed is either still on the
 processing stack or validated; at the end the stack is empty and everything is marked), so every
@@ -164,15 +198,14 @@ theorem container_validated_in_range (e : Eof) (t : Option CodeType) (l : List C
 filled data section, and it and — recursively — every sub-container is `ContainerOk`; every
 sub-container decodes (so `Eof::decode(sub).expect("Subcontainer is verified")` in EOFCREATE and
 `EofHeader::decode(&container).expect("valid EOF header")` in RETURNCONTRACT cannot fail).
+That relative jumps land on instruction starts is `validate_ok_no_jump_into_immediate` below.
 
-Partial: see `ValidatedSafeStatement` for the full statement. Not covered here: relative jumps
-land on instruction *starts* (`JumpsOnStarts`: the validator's `is_immediate` / `is_jumpdest`
-bookkeeping), RETF / JUMPF return-stack discipline and stack-height soundness (`max_stack_size`),
-the validator itself never panicking, and the step from these static facts to "the interpreter's
-EOF instructions never reach their panic sites" — there is no Lean model of those instructions.
-These parts are carried by the correspondence stream (verdict incl. error kind equal to the real
-validator on every input) and by executing every accepted container on the real interpreter
-under `catch_unwind`. -/
+Partial: see `ValidatedSafeStatement` for the full statement. Not covered: RETF / JUMPF
+return-stack discipline and stack-height soundness (`max_stack_size`), the validator itself never
+panicking, and the step from these static facts to "the interpreter's EOF instructions never reach
+their panic sites" — there is no Lean model of those instructions. These parts are carried by the
+correspondence stream (verdict incl. error kind equal to the real validator on every input) and by
+executing every accepted container on the real interpreter under `catch_unwind`. -/
 theorem validated_in_range_partial (bs : List Nat) (t : Option CodeType) (e : Eof)
     (h : validateRawEofInner bs t = .ok e) :
     Eof.decode bs = .ok e ∧ e.body.isDataFilled = true ∧ DeepOk e :=
@@ -186,21 +219,42 @@ example : (match validateRawEofInner [239, 0, 1, 1, 0, 8, 2, 0, 2, 0, 5, 0, 7, 4
     | .ok e => e.body.codeSection.length == 2
     | _ => false) = true := by decide +kernel
 
-/-- `e'` is `e` or a (transitive) sub-container of `e` -/
-inductive SubOf : Eof → Eof → Prop
-  | refl (e : Eof) : SubOf e e
-  | sub {e e1 e2 : Eof} {c : List Nat} : c ∈ e.body.containerSection → Eof.decode c = .ok e1 →
-      SubOf e1 e2 → SubOf e e2
+/-- **No jump into immediate bytes, whole container.** In an accepted container and in every
+(transitive) sub-container `e'` of it (`SubOf`), every code section is `SectionOk` and the target of
+every RJUMP / RJUMPI / RJUMPV-table entry of every code section is an instruction start of that
+section. So `rjump` / `rjumpi` / `rjumpv` of the interpreter, which add the offset to the
+instruction pointer unchecked, always continue at an opcode the validator has looked at as an
+opcode (and never e.g. at a table byte that happens to read as RETF). -/
+theorem validate_ok_no_jump_into_immediate (bs : List Nat) (t : Option CodeType) (e : Eof)
+    (h : validateRawEofInner bs t = .ok e) :
+    ∀ e', SubOf e e' →
+      ContainerOk e' ∧ ∀ code, code ∈ e'.body.codeSection → JumpsOnStarts code.toArray :=
+  fun _ hs => Proofs.EofValidate.validateRaw_sub h hs
+
+/-- non-vacuity: a container with a sub-container (EOFCREATE of an initcode container that
+RETURNCONTRACTs a runtime container) preceded by a taken RJUMPI is accepted; `SubOf` then ranges
+over three containers (request
+`eof validate rs ef0001010004020001000c030001003004000000008000055f5f5f5f6001e10000ec0000ef00010100040200010004030001001404000000008000025f5fee00ef00010100040200010001040000000080000000`) -/
+example : (match validateRawEofInner [239, 0, 1, 1, 0, 4, 2, 0, 1, 0, 12, 3, 0, 1, 0, 48, 4, 0, 0, 0, 0, 128, 0, 5, 95, 95, 95, 95, 96, 1, 225, 0, 0, 236, 0, 0, 239, 0, 1, 1, 0, 4, 2, 0, 1, 0, 4, 3, 0, 1, 0, 20, 4, 0, 0, 0, 0, 128, 0, 2, 95, 95, 238, 0, 239, 0, 1, 1, 0, 4, 2, 0, 1, 0, 1, 4, 0, 0, 0, 0, 128, 0, 0, 0] (some .ReturnOrStop) with
+    | .ok e => e.body.containerSection.length == 1
+    | _ => false) = true := by decide +kernel
 
 /-- The full statement behind C26's last sentence, as far as it can be said without a model of the
 interpreter: validation never panics, and in every (sub-)container of an accepted container every
 section is `SectionOk` **and** all relative jumps land on instruction starts. (Still missing from
 this statement, and only described in prose: RETF is executed only with a non-empty return stack,
 `max_stack_size` bounds the real stack height, and therefore no EOF instruction handler reaches a
-`panic!` / `expect` / out-of-range pointer.) NOT proved; see `validated_in_range_partial`. -/
+`panic!` / `expect` / out-of-range pointer.) The second conjunct is
+`validate_ok_no_jump_into_immediate`; NOT proved is the first one (every index of the validator
+itself is in range), see `validated_safe_of_total`. -/
 def ValidatedSafeStatement : Prop :=
   (∀ bs t, IsBytes bs → validateRawEofInner bs t ≠ .panic) ∧
   ∀ bs t e, validateRawEofInner bs t = .ok e → ∀ e', SubOf e e' →
     ContainerOk e' ∧ ∀ code, code ∈ e'.body.codeSection → JumpsOnStarts code.toArray
+
+/-- what is left of `ValidatedSafeStatement`: totality of the validator -/
+theorem validated_safe_of_total
+    (htotal : ∀ bs t, IsBytes bs → validateRawEofInner bs t ≠ .panic) : ValidatedSafeStatement :=
+  ⟨htotal, fun bs t e h => validate_ok_no_jump_into_immediate bs t e h⟩
 
 end Revm.Props.C26
